@@ -9,8 +9,8 @@
    path of a bound peer); the property is the monitor Spec/WriteSpec.v (the same extracted
    monitor judges the implementation's traces). *)
 From Coq Require Import List ZArith NArith Bool.
-From Verif Require Import Base.Prelude Model.Schema Model.Update Model.FunctionStore Spec.UpdateSpec Spec.WriteSpec.
-From Verif Require Import Proofs.UpdateBasics Proofs.UpdateRefine Proofs.UpdateStep Proofs.UpdateRun Proofs.WriteProofs Proofs.WriteRun.
+From Verif Require Import Base.Prelude Model.Schema Model.Update Model.FunctionStore Model.WriteStore Spec.UpdateSpec Spec.WriteSpec.
+From Verif Require Import Proofs.UpdateBasics Proofs.UpdateRefine Proofs.UpdateStep Proofs.UpdateRun Proofs.WriteProofs Proofs.WriteRun Proofs.WriteOverlap.
 From Verif Require Import Gen.GenSchemas.
 
 (* Every history of Init / Update (local set-up updates and remote writes of every shape:
@@ -26,11 +26,34 @@ From Verif Require Import Gen.GenSchemas.
      OK          success leaves post = the write applied to pre (all of its changes)
    — for every clause the scope does not excuse.  Excused: PROTECTED, FLAG and ACCEPT at a
    full (filter-less) remote write (recorded finding); everything once the data or a write is
-   ill-formed (C02's recorded findings) until a well-formed full local update. *)
+   ill-formed (C02's recorded findings) until a well-formed full local update.
+   Histories may also contain [Overlap w l]: the remote write w released together with a local
+   update l of the same function on another goroutine (Model/WriteStore.v).  For the pairs that
+   commute (identified partial updates naming disjoint identifiers, C04_overlap_commutes) the
+   answer to the write obeys ACCEPT and the data afterwards is what the two updates give one after
+   the other (OVERLAP): neither is lost or undone, the write changed nothing it does not address
+   although the application changed other elements at the same time. *)
 Theorem C04_trace_accepted_partial : forall ops,
+  accepted (wojudge wminit wsinit (snd (wrun init ops))) = true.
+Proof. exact worun_accepted. Qed.
+Print Assumptions C04_trace_accepted_partial.
+
+(* the same for histories without overlapping updates, as first stated *)
+Theorem C04_sequential_trace_accepted_partial : forall ops,
   accepted (wjudge wminit wsinit (snd (run init ops))) = true.
 Proof. exact wrun_accepted. Qed.
-Print Assumptions C04_trace_accepted_partial.
+Print Assumptions C04_sequential_trace_accepted_partial.
+
+(* The overlapped pair commutes: whichever of the two takes effect first, the write gets the same
+   answer, the local update succeeds, and the resulting data hold the same element under every
+   identifier (both lists are well-formed and ordered). *)
+Theorem C04_overlap_commutes : forall s w l, insc s -> overlap_ok (sch s) w l = true ->
+  let '(a, cw, cl) := write_then_local s w l in
+  let '(b, cw', cl') := local_then_write s w l in
+  cw = cw' /\ cl = Res 0 /\ cl' = Res 0 /\ insc a /\ insc b /\
+  forall k, lfind (sch s) k (storel a) = lfind (sch s) k (storel b).
+Proof. exact overlap_commutes. Qed.
+Print Assumptions C04_overlap_commutes.
 
 (* ---- the unscoped statement is false of the faithful model, as it is of the code ---- *)
 
@@ -172,8 +195,27 @@ Example C04_nonvacuous :
               Snapshot]%N in
   let tr := snd (run init ops) in
   strictly_accepted (wjudge wminit wsinit tr) = true /\
+  strictly_accepted (wojudge wminit wsinit (snd (wrun init (map Seq ops)))) = true /\
   forallb (fun ve => match snd ve with [] => true | _ => false end) (wjudge wminit wsinit tr) = true /\
   map (fun oo => match snd oo with Res c :: _ => Some c | _ => None end) tr =
     [None; Some 0; Some 0; Some 1; Some 1; Some 0; Some 1; Some 1; Some 0; Some 1; Some 0; None]%N /\
   store (fst (run init ops)) = Some [kv 1 10 (Some 0); [Some 2; None; Some 1]; kv 3 30 None]%N.
+Proof. vm_compute. repeat split; reflexivity. Qed.
+
+(* non-vacuity of the overlap operation: a write to changeable element 2 overlapped by a local
+   update of element 4 and a new element 5 (accepted, both visible), then a write to protected
+   element 1 overlapped by a local update of element 2 (rejected, the local update visible); in
+   scope, nothing excused, strictly accepted *)
+Definition local_part (l : list item) : upd := {| u_new := l; u_fp := partial; u_fd := None |}.
+Example C04_overlap_nonvacuous :
+  let ops := [Seq (Init 6 false);
+              Seq (local_full [kv 1 10 (Some 0); kv 2 20 (Some 1); kv 4 40 (Some 1)]);
+              Overlap (local_part [kv 2 21 None]) (local_part [kv 4 41 None; kv 5 50 (Some 1)]);
+              Overlap (local_part [kv 1 11 None]) (local_part [kv 2 22 None])]%N in
+  let tr := snd (wrun init ops) in
+  strictly_accepted (wojudge wminit wsinit tr) = true /\
+  forallb (fun ve => match snd ve with [] => true | _ => false end) (wojudge wminit wsinit tr) = true /\
+  map (fun oo => match snd oo with Res c :: Res c' :: _ => Some (c, c') | _ => None end) tr =
+    [None; None; Some (0, 0); Some (1, 0)]%N /\
+  store (fst (wrun init ops)) = Some [kv 1 10 (Some 0); kv 2 22 (Some 1); kv 4 41 (Some 1); kv 5 50 (Some 1)]%N.
 Proof. vm_compute. repeat split; reflexivity. Qed.
